@@ -134,3 +134,15 @@ MUTANTS += [
     ("c10_analytic_mean_sorted", "C10", "solver.py", "        tfftp[:, 0, 0] = p000 - tfftq0[0, 0] * Kzinv * h\n", "        tfftp[:, 0, 0] = p000 - tfftq0[0, 0] * Kzinv * np.sort(h)\n"),
     ("c10_store_after_step", "C10", "solver.py", "        if i in levels:\n            fftp[lvl, ...] = fftpi\n            fftq[lvl, ...] = fftqi\n            lvl += 1\n\n        Ti =", "        if i in levels and i > 0:\n            fftp[lvl, ...] = fftpi\n            fftq[lvl, ...] = fftqi\n            lvl += 1\n\n        Ti ="),
 ]
+
+MUTANTS += [
+    # ---- C11
+    ("c11_parity_regression", "C11", "solver.py", "    if (nxe - nlx) % 2 or (nye - nly) % 2:\n", "    if False:\n"),
+    ("c11_dlx_plus_one", "C11", "solver.py", "    dlx, dly = (nxe - nlx) // 2, (nye - nly) // 2\n", "    dlx, dly = (nxe - nlx + 1) // 2, (nye - nly) // 2\n"),
+    ("c11_crop_unpadded", "C11", "solver.py", "    flx = q[:, py : nye - py, px : nxe - px]\n", "    flx = q[:, 0:ny, 0:nx]\n"),
+    ("c11_linspace_endpoint", "C11", "solver.py", "    x = np.linspace(0, xmx, nx, endpoint=False)\n", "    x = np.linspace(0, xmx, nx, endpoint=True)\n"),
+    ("c11_clamp_to_unpadded", "C11", "solver.py", "    if (nlx > nxe) or (nly > nye):\n", "    if (nlx > nx) or (nly > ny):\n"),
+    ("c11_clamp_sets_unpadded", "C11", "solver.py", "        nlx, nly = nxe, nye\n", "        nlx, nly = nxe - 2 * (px > 0), nye\n"),
+    ("c11_lowpass_damped", "C11", "solver.py", "        tfftq0 = fftq0[dly : nye - dly, dlx : nxe - dlx]\n", "        tfftq0 = fftq0[dly : nye - dly, dlx : nxe - dlx] * (1.0 - 1e-6 * dlx)\n"),
+    ("c11_y_from_xmx", "C11", "solver.py", "    y = np.linspace(0, ymx, ny, endpoint=False)\n", "    y = np.linspace(0, xmx, ny, endpoint=False)\n"),
+]
